@@ -128,6 +128,8 @@ def cache_policy():
               (False: the second call is a silent cache hit)
       clear : a failed run repeated with the same inputs (after clearing `failed`) runs again
               (False: the second call is a silent cache hit)
+      abort : (C06's subject) a starting node that is not ready makes `Composite.run` raise that
+              ReadinessError at once (False: collected, FailedChildError after the graph has run)
     """
     global _POLICY
     if _POLICY is None:
@@ -154,7 +156,17 @@ def cache_policy():
                 clear = False
             except Exception:  # noqa: BLE001
                 clear = True
-        _POLICY = {"gate": bool(gate), "clear": bool(clear), "probe_ok": gate is not None and clear is not None}
+        from pyiron_workflow import Workflow
+
+        wf = Workflow("c16probe", autoload=None)
+        wf.n = nodes_c16.B3(a="x", b="y")
+        abort = None
+        try:
+            wf.run()
+        except Exception as e:  # noqa: BLE001
+            abort = type(e).__name__ == "ReadinessError"
+        _POLICY = {"gate": bool(gate), "clear": bool(clear), "abort": bool(abort),
+                   "probe_ok": gate is not None and clear is not None and abort is not None}
     return _POLICY
 
 
@@ -614,7 +626,7 @@ def _run_for(case):
         composite.sleep = old_sleep
     if ctl is not None:
         stats["max_outstanding:" + str(min(ctl.max_outstanding, 9))] = 1
-    stats[f"policy:gate={policy['gate']},clear={policy['clear']}"] = 1
+    stats[f"policy:gate={policy['gate']},clear={policy['clear']},abort={policy['abort']}"] = 1
     return {"obs": obs, "runs": runs_out, "stats": stats, "policy": policy}
 
 
@@ -686,9 +698,10 @@ def model_input(case, impl=None):
     lines.append("zip " + " ".join(case["zip"]))
     lines.append("form " + ("df" if case["df"] else "lists"))
     lines.append("cache " + ("on" if case["use_cache"] else "off"))
-    policy = (impl or {}).get("policy") or {"gate": False, "clear": False}
+    policy = (impl or {}).get("policy") or {"gate": False, "clear": False, "abort": True}
     lines.append("gatecache " + ("on" if policy["gate"] else "off"))
     lines.append("clearonfail " + ("on" if policy["clear"] else "off"))
+    lines.append("startabort " + ("on" if policy["abort"] else "off"))
     lines.append("begin")
     looped = set(case["iter"]) | set(case["zip"])
 
